@@ -10,6 +10,9 @@ THEOREMS = ['Smtb.Properties.C06.reducedModRCheck_sat', 'Smtb.Properties.C06.toR
 
 
 def run(ctx):
+    from . import common as _c
+    _c.lake_build(['Smtb.Properties.TraceSound'])
+    _c.audit(ctx, 'Smtb/Properties/TraceSound.lean', ['Smtb.Properties.TraceSound.' + t for t in ('reducedModRCheck_trace_iff', 'toReducedBigEndian_trace_iff', 'fromBinaryBigEndian_trace_iff')])
     primes = [R, '47', '101', '251', '65521', str(2**61 - 1)]
     widths = [8, 16, 32, 64, 248, 256]
     t = []
